@@ -1,7 +1,8 @@
 (* C03 - Registry holds exactly the live, not-detached nodes under unique ids.
    ONLY statements; proofs are `exact <lemma of Proofs/RegistryProofs.v>`.  Everything holds for EVERY digest H
    (collisions allowed: this is the "whatever the digest size" clause).  The state machine is Model/Registry.v;
-   `step H ct late true` is the code in /repo (after the D4 repair), `step H ct late false` the code before it;
+   `step H ct late true` is the code in /repo (after the D4 repair and the forced-id repair of _deserialize),
+   `step H ct late false` the code before them;
    `late` is ANY validation a user subclass performs in its own __post_init__ after super().__post_init__() has given
    the new node its id and registered it (late s a = true: it raises for the node at address a just built in state s). *)
 From Oak Require Import Model.Registry Proofs.RegistryProofs Proofs.RegistryReach.
@@ -148,60 +149,120 @@ Theorem C03_repaired_double_detach :
   exists c, cell_at s 1 = Some c /\ get_any s (k_id c) = Some 1.
 Proof. exact repaired_double_detach. Qed.
 
-(* ---- as_dict / as_obj as far as the registry is concerned (Model/RegistrySer.v: `ser_st` = the id-carrying value of a
-        held tree, `deser` = ASTNode._deserialize, node.py:258-283, `force_id` = its forced-id branch) ---- *)
+(* ---- as_dict / as_obj.  `AsDict src slot` (slot = x.as_dict(): a VALUE carrying the id of every node; it is no reference
+        and keeps nothing alive) and `AsObj slot dst` (dst = Cls.as_obj(slot)) are operations of `step` / `run`, so
+        C03_inv_step, C03_invS_step, C03_lookup_live, C03_fail_frame (an as_obj rejected half-way by a class's own
+        validation) and C03_no_fuel_out above cover them.  Below: what is specific to them (Model/Registry.v: `ser_st`,
+        `deser` = ASTNode._deserialize, `force_id fx` = its forced-id branch; fx = true: the code in /repo, the serialized id
+        is forced only WHILE IT IS FREE; fx = false: the code before that repair) ---- *)
 (* a registered id is answered by the registered node, whichever node that is (C04's premise "no other live node has
    meanwhile taken over its id" is what makes it the original) *)
-Theorem C03_deser_registered : forall H ct late fuel s i c o ps ks b, lookup i (reg s) = Some b ->
-  deser H ct late (S fuel) s (SNode i c o ps ks) = DOk s b.
+Theorem C03_deser_registered : forall H ct late fx fuel s i c o ps ks b, lookup i (reg s) = Some b ->
+  deser H ct late fx (S fuel) s (SNode i c o ps ks) = DOk s b.
 Proof. exact deser_registered. Qed.
-(* the forced-id branch keeps the invariant: the fresh id is popped, the node just built carries and is registered under the
-   serialized id; if that id has an entry (see C03_refuted_forced_id_evicts_child) it is overwritten and the evicted node
-   is recorded in the ghost `det` *)
-Theorem C03_force_inv : forall s a cl i, Inv0 s -> cell_at s a = Some cl -> In (k_id cl, a) (reg s) -> k_id cl <> i ->
-  Inv0 (force_id s a cl i).
+(* the forced-id branch keeps the invariant, in both variants: the fresh id is popped, the node just built carries and is
+   registered under the serialized id; before the repair an entry the id has meanwhile got was overwritten and the evicted
+   node is recorded in the ghost `det` (C03_refuted_forced_id_evicts_child); the code in /repo leaves everything as it is
+   when the id is held *)
+Theorem C03_force_inv : forall fx s a cl i, Inv0 s -> cell_at s a = Some cl -> In (k_id cl, a) (reg s) -> k_id cl <> i ->
+  Inv0 (force_id fx s a cl i).
 Proof. exact force_inv. Qed.
-Theorem C03_force_no_takeover : forall s a cl i, lookup i (remove_id (k_id cl) (reg s)) = None ->
-  det (force_id s a cl i) = det s /\ get_any (force_id s a cl i) i = Some a.
+Theorem C03_force_no_takeover : forall fx s a cl i, k_id cl <> i -> lookup i (reg s) = None ->
+  det (force_id fx s a cl i) = det s /\ get_any (force_id fx s a cl i) i = Some a.
 Proof. exact force_no_takeover. Qed.
-Theorem C03_force_frame : forall s a cl i x, x <> a -> cell_at (force_id s a cl i) x = cell_at s x.
+Theorem C03_force_frame : forall fx s a cl i x, x <> a -> cell_at (force_id fx s a cl i) x = cell_at s x.
 Proof. exact force_frame. Qed.
-(* the whole recursive reading - returning, or rejected half-way by a class's own validation - keeps Inv0 *)
-Theorem C03_deser_inv : forall H ct late fuel s v, Inv0 s ->
-  match deser H ct late fuel s v with
+(* the whole recursive reading - returning, or rejected half-way by a class's own validation - keeps Inv0 (both variants) *)
+Theorem C03_deser_inv : forall H ct late fx fuel s v, Inv0 s ->
+  match deser H ct late fx fuel s v with
   | DOk s' a => Inv0 s' /\ len_le s s' /\ a < length (heap s')
   | DLate s' => Inv0 s' /\ len_le s s'
   | DFuel => True
   end.
 Proof. exact deser_inv. Qed.
-(* PARTIAL: as_dict/as_obj are not operations of `step`/`run` (so RInvS, C03_fail_frame and the correspondence run do not
-   cover them); what is proved is that the would-be step `x = as_obj(d)` + collection re-establishes RInv *)
-Theorem C03_asobj_step_inv_partial : forall H ct late fuel s v dst, RInv s ->
-  match deser H ct late fuel s v with
+(* the would-be step `x = as_obj(d)` + collection re-establishes RInv for ANY value d (was C03_asobj_step_inv_partial
+   while as_obj was outside `step`; for the values a program can hold it is now an instance of C03_inv_step) *)
+Theorem C03_asobj_step_inv : forall H ct late fx fuel s v dst, RInv s ->
+  match deser H ct late fx fuel s v with
   | DOk s' a => RInv (gc (set_var s' dst (Some a)))
   | DLate s' => RInv (gc s')
   | DFuel => True
   end.
 Proof. exact deser_step_inv. Qed.
-(* the suffixed id of a twin survives the trip although no twin is registered any more (forced id) *)
+(* THE CODE IN /repo NEVER EVICTS ANYBODY: whatever value is read, in whatever state (every H: collisions included),
+   whether the call returns or a class rejects a node half-way - every lookup that answered before the call answers the
+   same after it (the registry before is a sub-map of the registry after), every existing node is what it was, nothing
+   is marked detached *)
+Theorem C03_deser_never_evicts : forall H ct late fuel s v s', Inv0 s ->
+  (deser H ct late true fuel s v = DLate s' \/ exists a, deser H ct late true fuel s v = DOk s' a) ->
+  (forall j b, get_any s j = Some b -> get_any s' j = Some b) /\
+  (forall a, a < length (heap s) -> cell_at s' a = cell_at s a) /\ det s' = det s /\ Inv0 s'.
+Proof. exact deser_never_evicts. Qed.
+(* ... and as a step of a history (bind the result, collect): a node found under its id before the step and still
+   referenced after it is found under that id after it *)
+Theorem C03_asobj_step_never_evicts : forall H ct late s slot dst s' r, RInv s ->
+  step H ct late true s (AsObj slot dst) = (s', r) ->
+  forall j b, get_any s j = Some b -> reachable s' b = true -> get_any s' j = Some b.
+Proof. exact asobj_step_never_evicts. Qed.
+(* no as_dict / as_obj runs out of fuel (C03_no_fuel_out is the statement for steps) *)
+Theorem C03_asobj_total : forall H ct late fx s v, asobj H ct late fx s v <> DFuel.
+Proof. exact asobj_no_fuel. Qed.
+(* the suffixed id of a twin survives the trip although no twin is registered any more (forced id, the id being free) *)
 Example C03_ex_asobj_forced :
   let s1 := run ex_H ex_ct no_late true ex_state [Drop 2] in
   exists d s' a, ser_st ex_state 1 = Some d /\ get_any s1 (lit ")_1") = None /\ RInv s1
-    /\ deser ex_H ex_ct no_late 2 s1 d = DOk s' a /\ a = 3
+    /\ deser ex_H ex_ct no_late true 2 s1 d = DOk s' a /\ a = 3
     /\ option_map k_id (cell_at s' a) = Some (lit ")_1") /\ get_any s' (lit ")_1") = Some a /\ get_any s' (lit ")") = None
     /\ det s' = det s1.
 Proof.
   eexists _, _, _. split; [vm_compute; reflexivity|]. split; [vm_compute; reflexivity|].
   split; [apply run_inv; exact ex_state_inv|]. split; [vm_compute; reflexivity|]. vm_compute. repeat split.
 Qed.
-(* what the code does when the serialized id is taken over DURING the reading (one-character digest: collisions): a
-   detached child x and its parent p share an id; reading p's dict back re-creates the child under that id, then forces
-   the id onto the parent over the child's entry: the re-created child is referenced, was never detached by the
+(* partly alive: x = A(1); y = A(2); p = B((x, y)); d = p.as_dict(); del p, y; q = B.as_obj(d): x comes back as the very
+   same object, y and p are new objects carrying the serialized ids; all alive: the very same root comes back *)
+Example C03_ex_asobj_partly_alive :
+  let s := run ser_H ser_ct no_late true (init_st 4) ser_ops in
+  RInvS s /\ vars s = [Some 0; None; None; Some 4] /\ tree_of s 4 = [4; 0; 3] /\ length (heap s) = 5 /\
+  option_map k_id (cell_at s 4) = option_map k_id (cell_at s 2) /\
+  option_map k_id (cell_at s 3) = option_map k_id (cell_at s 1) /\ map snd (reg s) = [4; 3; 0].
+Proof. split; [exact (run_invS ser_H ser_ct no_late ser_ops _ (invS_init 4))|vm_compute; repeat split]. Qed.
+(* an as_obj rejected by a class's own validation (premise of C03_fail_frame inhabited by an AsObj): constant digest, class
+   B rejects ids ending in _1; p = B(()) was built as d_2 while d and d_1 were held; read back while d_1 is free it is
+   first given d_1 - and rejected: everything is as before, the half-built node is unreachable *)
+Definition ex_late_sfx : st -> nat -> bool := late_of ex_ct [VIdSuffix (lit "B") (lit "_1")].
+Example C03_ex_asobj_rejected :
+  let s := run evict_H ex_ct ex_late_sfx true (init_st 3)
+             [ex_leaf 0 1; ex_leaf 1 2; New 2 (lit "B") ONo [] [(lit "xs", (ShMany, []))]; AsDict (2, 0) 0; Drop 2; Drop 1] in
+  let r := step evict_H ex_ct ex_late_sfx true s (AsObj 0 2) in
+  RInv s /\ snd r = Raised EValue /\ length (heap s) = 3 /\ length (heap (fst r)) = 4
+  /\ get_any (fst r) (lit "d") = Some 0 /\ get_any (fst r) (lit "d_1") = None /\ reachable (fst r) 3 = false.
+Proof. split; [apply run_inv; apply inv_init|vm_compute; repeat split]. Qed.
+(* what the code did BEFORE the repair when the serialized id is taken over DURING the reading (one-character digest:
+   collisions): a detached child x and its parent p share an id; reading p's dict back re-creates the child under that id,
+   then forces the id onto the parent over the child's entry: the re-created child is referenced, was never detached by the
    program, and get_any(child.id) returns the parent (reproduced on pyoak with ID_DIGEST_SIZE = 1, design.d/C03.md) *)
 Theorem C03_refuted_forced_id_evicts_child :
-  exists s' p, evict_res = DOk s' p /\ reg evict_s1 = [] /\
+  exists s' p, evict_res false = DOk s' p /\ reg evict_s1 = [] /\
     let s2 := gc (set_var s' 0 (Some p)) in
     tree_of s2 p = [3; 2] /\ reachable s2 2 = true /\
     option_map k_id (cell_at s2 2) = Some (lit "d") /\ option_map k_id (cell_at s2 3) = Some (lit "d") /\
     get_any s2 (lit "d") = Some 3 /\ In 2 (det s2) /\ det evict_s1 = [0].
 Proof. exact refuted_forced_id_evicts_child. Qed.
+(* ... and the code in /repo on the same input: the child keeps the shared id and is found under it, the parent keeps the
+   unique id it was given and is found under that *)
+Theorem C03_repaired_forced_id_keeps_child :
+  exists s' p, evict_res true = DOk s' p /\
+    let s2 := gc (set_var s' 0 (Some p)) in
+    tree_of s2 p = [3; 2] /\
+    option_map k_id (cell_at s2 2) = Some (lit "d") /\ option_map k_id (cell_at s2 3) = Some (lit "d_1") /\
+    get_any s2 (lit "d") = Some 2 /\ get_any s2 (lit "d_1") = Some 3 /\ det s2 = det evict_s1.
+Proof. exact repaired_forced_id_keeps_child. Qed.
+(* the same two facts as histories of the machine *)
+Theorem C03_refuted_forced_id_history :
+  let s := run evict_H ex_ct no_late false (init_st 2) evict_hist in
+  vars s = [Some 3; None] /\ tree_of s 3 = [3; 2] /\ get_any s (lit "d") = Some 3 /\ In 2 (det s) /\ reachable s 2 = true.
+Proof. exact refuted_forced_id_history. Qed.
+Theorem C03_repaired_forced_id_history :
+  let s := run evict_H ex_ct no_late true (init_st 2) evict_hist in
+  vars s = [Some 3; None] /\ tree_of s 3 = [3; 2] /\ get_any s (lit "d") = Some 2 /\ get_any s (lit "d_1") = Some 3 /\ det s = [0].
+Proof. exact repaired_forced_id_history. Qed.
